@@ -115,7 +115,16 @@ def e2e_item(c):
 # ---------------------------------------------------------------- the check
 
 def run(ctx):
+    import time as _t
+    t0 = _t.time()
+    phases = {}
+
+    def mark(name):
+        nonlocal t0
+        phases[name] = round(_t.time() - t0, 1)
+        t0 = _t.time()
     ctx.add_obligations(vcheck.coq_props("Table", "C12"))
+    mark("props")
     ctx.cov["checker_cmd"] = ("coqc -Q coq/Table BWTable coq/Table/Props/C12.v; work/bin/h_table -mode sort|limit|limtok|e2e12|replay12; "
                               "Corr.sort_verdict / limit_verdict / limtok_verdict / e2e12_verdict evaluated by vm_compute")
     mult = 20 if ctx.tier == "thorough" else 1
@@ -144,16 +153,17 @@ def run(ctx):
             ctx.violation({"kind": "formatted string differs from the Gallina formatter", "case": c})
         elif v == 4:
             excuse(c, value_order_classes(c["in"], [k["b"] for k in c["cfg"]]), "ORDER BY output not in value order")
+    mark("sort")
     # ---- Table.Limit
     limits = T.htable(["-mode", "limit", "-n", 60 * mult, "-seed", seed])
-    lcodes = T.coq_verdicts(ctx, "c12_limit", [limit_item(c) for c in limits])
+    toks = T.htable(["-mode", "limtok"])
+    both = T.coq_verdicts(ctx, "c12_limit", [limit_item(c) for c in limits] + [limtok_item(c) for c in toks])
+    lcodes, tcodes = both[:len(limits)], both[len(limits):]
     for c, v in zip(limits, lcodes):
         dist["limit:%s:%d" % (c["outcome"], v)] += 1
         if v >= 2:
             ctx.violation({"kind": "Table.Limit disagrees with the model", "case": c})
     # ---- LIMIT tokens through the statement parser
-    toks = T.htable(["-mode", "limtok"])
-    tcodes = T.coq_verdicts(ctx, "c12_limtok", [limtok_item(c) for c in toks])
     for c, v in zip(toks, tcodes):
         dist["limtok:%s:%d" % (c["outcome"], v)] += 1
         if v >= 2:
@@ -164,6 +174,7 @@ def run(ctx):
             excuse(c, {"negative_limit_panic"} if c["parsed"] == "int64" else set(), "LIMIT token not rejected")
         if good and c["outcome"] != "ok":
             ctx.violation({"kind": "valid LIMIT rejected", "case": c})
+    mark("limit+limtok")
     # ---- end to end
     e2e = T.htable(["-mode", "e2e12", "-n", 100 * mult, "-seed", seed])
     ecodes = T.coq_verdicts(ctx, "c12_e2e", [e2e_item(c) for c in e2e], shard=300)
@@ -187,16 +198,40 @@ def run(ctx):
                     list(dict.fromkeys(k["b"] for k in c["cfg"])):
                 cl.add("repeated_keys_map_order")
             excuse(c, cl, "ORDER BY/LIMIT result not the first rows in value order")
+    mark("e2e")
     # ---- ORDER BY / LIMIT combined with GROUP BY and HAVING (aggregate outputs as keys): Exec.execute_tail
     import c13
-    tails = T.htable(["-mode", "e2etail", "-n", 60 * mult, "-seed", seed + 1])
+    tails = T.htable(["-mode", "e2etail", "-n", 40 * mult, "-seed", seed + 1])
     tcodes = T.coq_verdicts(ctx, "c12_tail", [c13.tail_item(c) for c in tails], imports="Reduce ReduceSpec Expr ExprSpec Exec", shard=300)
     for c, v in zip(tails, tcodes):
         dist["tail:%s:%s:%d" % (c["shape"], c["res"]["outcome"], v)] += 1
         if c["base"]["outcome"] != "ok" or v != 0:
             ctx.violation({"kind": "GROUP BY + ORDER BY + HAVING + LIMIT through the planner disagrees with Exec.execute_tail", "case": c})
+    mark("tail")
+    # ---- the two ORACLE order laws (assumed by C12_sorted_time_partial / C12_sorted_time_float_partial), sampled on Go's renderings
+    samples = T.htable(["-mode", "oracle", "-n", 2000 * mult, "-seed", seed])
+    groups = collections.defaultdict(list)
+    for x in samples:
+        if x["kind"] == "time":
+            sv = bytes.fromhex(x["str"])
+            groups[("t", x.get("off", 0), len(sv))].append((int(x["ns"]), sv))
+        elif float_in_domain(x["bits"]):
+            groups[("f",)].append((Fraction(T.float_of_bits(x["bits"])), bytes.fromhex(x["cmp"])))
+    law_pairs = 0
+    for key, items in groups.items():
+        items.sort()
+        for (v1, s1), (v2, s2) in zip(items, items[1:]):
+            law_pairs += 1
+            if (v1 < v2) != (s1 < s2) or (v1 == v2) != (s1 == s2) or s1 != s1.strip(b" \t\n\v\f\r"):
+                ctx.violation({"kind": "oracle order law refuted by Go's rendering", "group": list(map(str, key)),
+                               "a": [str(v1), s1.decode("latin1")], "b": [str(v2), s2.decode("latin1")]})
+                break
+    ctx.cov["oracle_law_adjacent_pairs_checked"] = law_pairs
+    ctx.cov["oracle_law_groups"] = len(groups)
     # ---- known findings: replay each open one on the implementation
     T.replay_findings(ctx, "C12", "replay12")
+    mark("oracle+replay")
+    ctx.cov["phase_seconds"] = phases
     # ---- coverage
     allc = [("sort", c, v) for c, v in zip(sorts, codes)] + [("e2e", c, v) for c, v in zip(e2e, ecodes)]
     seen = set()
